@@ -37,6 +37,10 @@ pub struct ConcCase {
     /// number of sampler threads (when `sampler`)
     #[serde(default)]
     pub samplers: u8,
+    /// closed gate only: the last handle is dropped while the worker is still held blocked
+    /// and the queue is as full as the racing producers got it
+    #[serde(default)]
+    pub drop_while_blocked: bool,
 }
 
 pub struct ConcCampaign {
@@ -48,23 +52,26 @@ fn conc_case(focus: QRule) -> BoxedStrategy<ConcCase> {
     let mode = match focus {
         QRule::Isolation => Just(GateMode::Closed).boxed(),
         QRule::Counters | QRule::Panic => prop_oneof![Just(GateMode::Open), Just(GateMode::Pulsed)].boxed(),
+        QRule::Shutdown => prop_oneof![3 => Just(GateMode::Open), 2 => Just(GateMode::Pulsed), 3 => Just(GateMode::Closed)].boxed(),
         _ => prop_oneof![3 => Just(GateMode::Open), 2 => Just(GateMode::Pulsed)].boxed(),
     };
     let cap = match focus {
         // tiny queues make the hand-over between a producer's send and its accounting tight
         QRule::Counters | QRule::Panic => prop_oneof![2 => Just(None), 3 => (1usize..4).prop_map(Some), 1 => (4usize..64).prop_map(Some)].boxed(),
         QRule::Isolation => prop_oneof![1 => Just(None), 4 => (1usize..20).prop_map(Some)].boxed(),
+        QRule::Shutdown => prop_oneof![2 => Just(None), 4 => (1usize..4).prop_map(Some), 1 => (4usize..64).prop_map(Some)].boxed(),
         _ => prop_oneof![3 => Just(None), 1 => (1usize..64).prop_map(Some)].boxed(),
     };
     (cap, 2u8..=8, 20u16..400, mode, any::<u64>())
         .prop_map(move |(cap, producers, per_producer, mode, yields)| ConcCase {
             cap,
             producers,
-            per_producer: if focus == QRule::Isolation { per_producer.min(40) } else { per_producer },
+            per_producer: if focus == QRule::Isolation || mode == GateMode::Closed { per_producer.min(40) } else { per_producer },
             mode,
             yields,
             sampler: focus == QRule::Counters || focus == QRule::Panic,
             samplers: 1 + (yields % 4) as u8,
+            drop_while_blocked: focus == QRule::Shutdown && mode == GateMode::Closed,
         })
         .boxed()
 }
@@ -314,6 +321,23 @@ impl Campaign for ConcCampaign {
         if let Some(p) = pulser {
             let _ = p.join();
         }
+        let mut q = Some(q);
+        if case.drop_while_blocked && case.mode == GateMode::Closed && !blocked {
+            let h = q.take().unwrap();
+            let dropper = thread::spawn(move || drop(h));
+            let deadline = Instant::now() + w;
+            while !dropper.is_finished() && Instant::now() < deadline {
+                thread::sleep(Duration::from_micros(200));
+            }
+            if !dropper.is_finished() {
+                findings.push((
+                    QRule::Shutdown,
+                    format!("drop of the last handle did not return within {:?} while the wrapped sink is held blocked ({} metrics accepted, capacity {:?})", w, accepted, case.cap),
+                ));
+            } else {
+                let _ = dropper.join();
+            }
+        }
         gate.set_open(Some(StepOut::Ok));
         // counters at the final quiescent point (all producers done; wait for the drain)
         if !blocked {
@@ -328,7 +352,7 @@ impl Campaign for ConcCampaign {
                         want, got, w
                     ),
                 ));
-            } else {
+            } else if let Some(q) = &q {
                 let (s, d, qd) = (q.submitted(), q.drained(), q.queued());
                 if s != accepted as u64 || d != accepted as u64 || qd != 0 {
                     findings.push((
@@ -408,7 +432,12 @@ impl Campaign for ConcCampaign {
             if !g.released {
                 findings.push((
                     QRule::Shutdown,
-                    "[sig=last-drop/wrapped-sink-not-released] all handles dropped after concurrent producers, wrapped sink not released".to_string(),
+                    format!(
+                        "[sig=last-drop/wrapped-sink-not-released] all handles dropped after concurrent producers ({} accepted, capacity {:?}{}), every metric delivered, wrapped sink not released",
+                        accepted,
+                        case.cap,
+                        if case.drop_while_blocked { ", last handle dropped while the worker was held blocked" } else { "" }
+                    ),
                 ));
             }
         }
@@ -430,6 +459,9 @@ impl Campaign for ConcCampaign {
         let tr = transient.load(Ordering::Relaxed);
         if tr > 0 {
             classes.push("sampler saw drained > submitted transiently");
+        }
+        if case.drop_while_blocked {
+            classes.push("last handle dropped while the worker is held blocked and the queue is full");
         }
         let nontrivial = match self.focus {
             QRule::Counters => samples.load(Ordering::Relaxed) > 10 && (tr > 0 || interleaved),
@@ -995,6 +1027,314 @@ impl Campaign for PanicStorm {
                 "panics mixed with ok/err while producers emit"
             } else {
                 "no panic in the cycle"
+            }],
+        }
+    }
+}
+
+// ---------------------------------------------------------------------------
+// C10 / C08: a queuing sink whose wrapped sink itself emits into another queuing
+// sink (chained queues, or a sink that reports its own statistics through one): the
+// inner emit runs on a worker thread. Its result too depends only on queue room.
+
+#[derive(Serialize, Deserialize, Clone, Debug)]
+pub struct ChainCase {
+    pub metrics: u16,
+    /// capacity of the second queue: None = unbounded, Some(extra) = metrics + extra (never full)
+    pub spare: Option<u8>,
+    /// the first queue's wrapped sink fails every k-th metric after forwarding it (0 = never)
+    pub fail_every: u8,
+    pub handler: bool,
+}
+
+struct Forward {
+    next: QueuingMetricSink,
+    results: Arc<std::sync::Mutex<Vec<Result<usize, String>>>>,
+    fail_every: u8,
+    seen: std::sync::atomic::AtomicUsize,
+}
+
+impl std::panic::RefUnwindSafe for Forward {}
+
+impl MetricSink for Forward {
+    fn emit(&self, metric: &str) -> std::io::Result<usize> {
+        let r = self.next.emit(metric);
+        self.results.lock().unwrap().push(match &r {
+            Ok(n) => Ok(*n),
+            Err(e) => Err(format!("{:?}: {}", e.kind(), e)),
+        });
+        let n = self.seen.fetch_add(1, Ordering::SeqCst) + 1;
+        if self.fail_every > 0 && n % self.fail_every as usize == 0 {
+            return Err(std::io::Error::new(std::io::ErrorKind::Other, "forwarding sink reports a failure of its own"));
+        }
+        r
+    }
+}
+
+pub struct ChainedQueues {
+    pub name: &'static str,
+    pub focus: QRule,
+}
+
+impl Campaign for ChainedQueues {
+    type Case = ChainCase;
+    fn name(&self) -> &'static str {
+        self.name
+    }
+    fn max_shrink_iters(&self) -> u32 {
+        30
+    }
+    fn strategy(&self, _tier: Tier) -> BoxedStrategy<ChainCase> {
+        (1u16..200, prop::option::weighted(0.4, 0u8..3), prop_oneof![2 => Just(0u8), 1 => 1u8..5], any::<bool>())
+            .prop_map(|(metrics, spare, fail_every, handler)| ChainCase {
+                metrics,
+                spare,
+                fail_every,
+                handler,
+            })
+            .boxed()
+    }
+    fn check(&self, case: &ChainCase, ctx: &Ctx) -> Outcome {
+        let w = ctx.w();
+        let gate = Gate::new();
+        gate.set_open(Some(StepOut::Ok));
+        let n = case.metrics as usize;
+        let g2 = gate.clone();
+        let results = Arc::new(std::sync::Mutex::new(Vec::new()));
+        let handled = Arc::new(std::sync::atomic::AtomicUsize::new(0));
+        let built = util::catch(|| {
+            let q2 = match case.spare {
+                None => QueuingMetricSink::from(GatedSink { gate: g2 }),
+                Some(x) => QueuingMetricSink::with_capacity(GatedSink { gate: g2 }, n + x as usize),
+            };
+            let fwd = Forward {
+                next: q2,
+                results: results.clone(),
+                fail_every: case.fail_every,
+                seen: std::sync::atomic::AtomicUsize::new(0),
+            };
+            if case.handler {
+                let h = handled.clone();
+                QueuingMetricSink::builder()
+                    .with_error_handler(move |_e| {
+                        h.fetch_add(1, Ordering::SeqCst);
+                    })
+                    .build(fwd)
+            } else {
+                QueuingMetricSink::from(fwd)
+            }
+        });
+        let q1 = match built {
+            Ok(q) => q,
+            Err(p) => {
+                return Outcome {
+                    verdict: Err(format!("constructor panicked: {}", p)),
+                    nontrivial: false,
+                    fingerprint: 0,
+                    classes: vec![],
+                }
+            }
+        };
+        let mut findings: Vec<(QRule, String)> = Vec::new();
+        let mut sent: Vec<String> = Vec::new();
+        for i in 0..n {
+            let m = format!("chain{}:1|c", i);
+            match util::catch(|| q1.emit(&m)) {
+                Ok(Ok(_)) => sent.push(m),
+                Ok(Err(e)) => findings.push((QRule::Isolation, format!("emit into the (unbounded) first queue returned Err({})", e))),
+                Err(p) => findings.push((QRule::Panic, format!("emit panicked: {}", p))),
+            }
+        }
+        // every metric passes through both workers
+        let want = sent.len();
+        let mut seen = 0usize;
+        let all = loop {
+            if seen >= want {
+                break true;
+            }
+            let from = seen;
+            if !gate.wait_until(w, |g| g.exited > from) {
+                break false;
+            }
+            seen = gate.lock().exited;
+        };
+        let res = results.lock().unwrap().clone();
+        if let Some((i, Err(e))) = res.iter().enumerate().find(|(_, r)| r.is_err()) {
+            findings.push((
+                QRule::Isolation,
+                format!(
+                    "emit #{} into the second queuing sink (made by the first one's wrapped sink, i.e. on a worker thread) returned Err({}) although that queue has room for every metric: the result must depend on queue room only",
+                    i, e
+                ),
+            ));
+        }
+        if !all {
+            let m = format!("{} metrics were accepted by the first queue but only {} came out of the second one within {:?} of the last progress", want, seen, w);
+            findings.push((QRule::Deliver, m.clone()));
+            if findings.iter().all(|f| f.0 != QRule::Isolation) {
+                findings.push((QRule::Isolation, m));
+            }
+        } else {
+            let g = gate.lock();
+            let got: Vec<&str> = g
+                .log
+                .iter()
+                .filter_map(|e| match e {
+                    Ev::Enter { metric, .. } => Some(metric.as_str()),
+                    _ => None,
+                })
+                .collect();
+            let wantv: Vec<&str> = sent.iter().map(|s| s.as_str()).collect();
+            if got != wantv {
+                findings.push((QRule::Deliver, format!("chained queues delivered {} metrics, {} were accepted, or the order differs", got.len(), wantv.len())));
+            }
+        }
+        drop(q1);
+        if findings.is_empty() && !gate.wait_until(w, |g| g.released) {
+            findings.push((
+                QRule::Shutdown,
+                "[sig=last-drop/wrapped-sink-not-released] chained queuing sinks: after the outer handle was dropped the innermost sink was not released".into(),
+            ));
+        }
+        let verdict = match findings
+            .iter()
+            .find(|f| (f.0 == self.focus || f.0 == QRule::Panic) && !crate::known::absorb(ctx.property, &f.1))
+        {
+            None => Ok(()),
+            Some(f) => Err(f.1.clone()),
+        };
+        Outcome {
+            verdict,
+            nontrivial: n >= 2,
+            fingerprint: util::hash_json(case),
+            classes: vec!["emit made on another queuing sink's worker thread (chained queues)"],
+        }
+    }
+}
+
+// ---------------------------------------------------------------------------
+// C09: many fresh sinks whose last handle is dropped right away (optionally after a
+// few emits), racing with the start-up / parking of the worker thread. Every wrapped
+// sink must be released. Found the zero-capacity remainder of the lost-stop defect.
+
+#[derive(Serialize, Deserialize, Clone, Debug)]
+pub struct DropRaceCase {
+    pub cap: Option<usize>,
+    pub trials: u32,
+    /// emits attempted before the drop
+    pub pre_emits: u8,
+    /// busy-wait iterations between construction and drop: (trial % 7) * spin
+    pub spin: u16,
+}
+
+struct CountDrop(Arc<std::sync::atomic::AtomicUsize>, Arc<std::sync::atomic::AtomicUsize>);
+
+impl std::panic::RefUnwindSafe for CountDrop {}
+
+impl MetricSink for CountDrop {
+    fn emit(&self, metric: &str) -> std::io::Result<usize> {
+        self.1.fetch_add(1, Ordering::SeqCst);
+        Ok(metric.len())
+    }
+}
+
+impl Drop for CountDrop {
+    fn drop(&mut self) {
+        self.0.fetch_add(1, Ordering::SeqCst);
+    }
+}
+
+pub struct DropRace;
+
+impl Campaign for DropRace {
+    type Case = DropRaceCase;
+    fn name(&self) -> &'static str {
+        "queue-drop-race"
+    }
+    fn max_shrink_iters(&self) -> u32 {
+        8
+    }
+    fn strategy(&self, _tier: Tier) -> BoxedStrategy<DropRaceCase> {
+        (
+            prop_oneof![4 => Just(Some(0usize)), 2 => Just(Some(1usize)), 1 => Just(Some(2usize)), 1 => Just(None)],
+            2_000u32..6_000,
+            prop_oneof![3 => Just(0u8), 1 => 1u8..4],
+            prop_oneof![Just(0u16), 1u16..400],
+        )
+            .prop_map(|(cap, trials, pre_emits, spin)| DropRaceCase { cap, trials, pre_emits, spin })
+            .boxed()
+    }
+    fn check(&self, case: &DropRaceCase, ctx: &Ctx) -> Outcome {
+        let w = ctx.w();
+        let released = Arc::new(std::sync::atomic::AtomicUsize::new(0));
+        let delivered = Arc::new(std::sync::atomic::AtomicUsize::new(0));
+        let mut accepted = 0usize;
+        let mut bad: Vec<String> = Vec::new();
+        for t in 0..case.trials as usize {
+            let sink = CountDrop(released.clone(), delivered.clone());
+            let q = match util::catch(|| match case.cap {
+                Some(c) => QueuingMetricSink::with_capacity(sink, c),
+                None => QueuingMetricSink::from(sink),
+            }) {
+                Ok(q) => q,
+                Err(p) => {
+                    bad.push(format!("constructor panicked: {}", p));
+                    break;
+                }
+            };
+            for i in 0..case.pre_emits {
+                if let Ok(Ok(_)) = util::catch(|| q.emit(if i % 2 == 0 { "a:1|c" } else { "bb:2|c" })) {
+                    accepted += 1;
+                }
+            }
+            for _ in 0..(t % 7) * case.spin as usize {
+                std::hint::spin_loop();
+            }
+            if let Err(p) = util::catch(move || drop(q)) {
+                bad.push(format!("drop panicked: {}", p));
+                break;
+            }
+        }
+        let want = case.trials as usize;
+        if bad.is_empty() {
+            // progress-based wait: W without a further release fails
+            let mut seen = released.load(Ordering::SeqCst);
+            let mut last_progress = Instant::now();
+            while seen < want && last_progress.elapsed() < w {
+                thread::sleep(Duration::from_micros(500));
+                let now = released.load(Ordering::SeqCst);
+                if now > seen {
+                    seen = now;
+                    last_progress = Instant::now();
+                }
+            }
+            if seen < want {
+                bad.push(format!(
+                    "[sig=last-drop/wrapped-sink-not-released] {} queuing sinks (capacity {:?}, {} emits each) were created and their only handle dropped at once; {} wrapped sinks were never dropped (worker threads that never terminate)",
+                    want,
+                    case.cap,
+                    case.pre_emits,
+                    want - seen
+                ));
+            } else if delivered.load(Ordering::SeqCst) != accepted {
+                bad.push(format!(
+                    "{} emits returned Ok before the drops but the wrapped sinks were handed {} metrics",
+                    accepted,
+                    delivered.load(Ordering::SeqCst)
+                ));
+            }
+        }
+        Outcome {
+            verdict: match bad.iter().find(|b| !crate::known::absorb(ctx.property, b)) {
+                None => Ok(()),
+                Some(b) => Err(b.clone()),
+            },
+            nontrivial: case.trials >= 1000,
+            fingerprint: util::hash_json(case),
+            classes: vec![match case.cap {
+                Some(0) => "fresh zero-capacity sinks dropped at once",
+                Some(_) => "fresh bounded sinks dropped at once",
+                None => "fresh unbounded sinks dropped at once",
             }],
         }
     }
